@@ -14,6 +14,7 @@ import (
 	"path/filepath"
 	"strings"
 	"sync"
+	"sync/atomic"
 	"time"
 )
 
@@ -354,6 +355,48 @@ func c20Swarm(g *rand.Rand, log *[]string) (string, error) {
 	}
 	defer srv.Kill()
 	port := freePort()
+	// churn: connections coming and going at the same time (on the emulator the child starts with) while a
+	// second emulator is alive; both must keep serving, and both must close within the bound afterwards
+	{
+		pb := freePort()
+		if r, err := srv.Ctl(fmt.Sprintf("START 2 %d", pb), 10*time.Second); err != nil || !strings.HasPrefix(r, "STARTED") {
+			return "", fmt.Errorf("START: %v %q", err, r)
+		}
+		var wg sync.WaitGroup
+		stop := time.Now().Add(700 * time.Millisecond)
+		var cyclesDone int64
+		for i := 0; i < 24; i++ {
+			wg.Add(1)
+			go func() {
+				defer wg.Done()
+				for time.Now().Before(stop) {
+					c, err := dial(srv.Port)
+					if err != nil {
+						return
+					}
+					c.Do(2*time.Second, bs("PING")...)
+					c.Close()
+					atomic.AddInt64(&cyclesDone, 1)
+				}
+			}()
+		}
+		wg.Wait()
+		for _, p := range []int{srv.Port, pb} {
+			c, err := dial(p)
+			if err != nil {
+				return fmt.Sprintf("after %d connect/PING/disconnect cycles by 24 clients the emulator on port %d refuses connections: %v", cyclesDone, p, err), nil
+			}
+			if r, err := c.Do(2*time.Second, bs("PING")...); err != nil || string(r.Str) != "PONG" {
+				c.Close()
+				return fmt.Sprintf("after %d connect/PING/disconnect cycles by 24 clients (connections registering and unregistering at the same time) an emulator of the process no longer answers PING: %v", cyclesDone, err), nil
+			}
+			c.Close()
+		}
+		if r, err := srv.Ctl("CLOSE 2", 15*time.Second); err != nil || !strings.HasPrefix(r, "CLOSED") {
+			return fmt.Sprintf("Close() of the second emulator after the churn did not return (%q %v)", r, err), nil
+		}
+		*log = append(*log, fmt.Sprintf("churn: %d connect/PING/disconnect cycles by 24 clients in 0.7 s", cyclesDone))
+	}
 	cycles := 40
 	for cy := 0; cy < cycles; cy++ {
 		if r, err := srv.Ctl(fmt.Sprintf("START 1 %d", port), 10*time.Second); err != nil || !strings.HasPrefix(r, "STARTED") {
